@@ -10,6 +10,8 @@ import (
 	"strconv"
 	"strings"
 	"testing"
+	"unsafe"
+	"verif/harness/guard"
 
 	"github.com/uhppoted/uhppote-core/types"
 	"pgregory.net/rapid"
@@ -221,6 +223,20 @@ func decide(c aCase) (*rp.Fail, verdict) {
 	got, pnc := parse(c.Role, c.S)
 	if pnc != nil {
 		return rp.Failf(site+"/panic", "%s(%q) panicked: %v", site, c.S, pnc), v
+	}
+	// the same text ending exactly where a readable page ends: the parser reads the string and nothing after it
+	if n := len(c.S); n > 0 && n <= 512 && guard.Available() {
+		placed, release := guard.Place([]byte(c.S), true)
+		var again parsed
+		var p2 any
+		p1 := guard.Do(func() { again, p2 = parse(c.Role, unsafe.String(&placed[0], len(placed))) })
+		release()
+		if p1 != nil || p2 != nil {
+			return rp.Failf(site+"/reads-beyond-the-argument", "%s(%q) with the string ending at the end of a readable page: %v %v", site, c.S, p1, p2), v
+		}
+		if (again.err == nil) != (got.err == nil) || again.ap != got.ap {
+			return rp.Failf(site+"/reads-beyond-the-argument", "%s(%q) gives %v, %v - and %v, %v when the string ends at the end of a readable page", site, c.S, got.ap, got.err, again.ap, again.err), v
+		}
 	}
 	switch v {
 	case mustReject:
